@@ -584,6 +584,15 @@ pub fn all_schemas() -> Vec<Schema> {
         json!({"call_id": "12345", "party_id": "67890", "version": "1", "sdp_stream_metadata": {"2311546231": {"purpose": "m.usermedia", "audio_muted": true, "video_muted": true}}}),
     ));
 
+    // the same event under its declared alias type (pre-stabilisation spelling): the typed variant all the same
+    add(Schema::new(
+        MessageLike,
+        "org.matrix.call.sdp_stream_metadata_changed",
+        "",
+        json!({"call_id": "12345", "party_id": "67890", "version": "1", "sdp_stream_metadata": {"2311546231": {"purpose": "m.usermedia", "audio_muted": true, "video_muted": true}}}),
+    )
+    .variant("CallSdpStreamMetadataChanged"));
+
     // in-room key verification: no transaction_id, `m.relates_to` (m.reference) required
     let rel = json!({"m.relates_to": reference()});
     add(Schema::new(MessageLike, "m.key.verification.ready", "", merge(json!({"from_device": "BobDevice1", "methods": ["m.sas.v1", "m.qr_code.show.v1", "m.reciprocate.v1"]}), rel.clone())));
@@ -639,6 +648,10 @@ pub fn all_schemas() -> Vec<Schema> {
         .opt("name", &[("name", json!("m.default"))])
         .opt("iv-mac", &[("iv", json!(B64)), ("mac", json!(B64))])
         .opt("passphrase", &[("passphrase", json!({"algorithm": "m.pbkdf2", "salt": "MmMsAlty", "iterations": 100000, "bits": 512}))]));
+    // a key ID with dots in it: the fragment is everything after the declared prefix
+    add(Schema::new(GlobalAccountData, "m.secret_storage.key.org.example.backup.1", "", json!({"algorithm": "m.secret_storage.v1.aes-hmac-sha2"}))
+        .variant("SecretStorageKey")
+        .opt("name", &[("name", json!("m.default"))]));
     add(Schema::new(GlobalAccountData, "m.push_rules", "", json!({"global": {}}))
         .opt(
             "override",
